@@ -203,6 +203,13 @@ impl NamespaceActor {
             } else if new_flag > 0 {
                 let mut new_value = v.as_ref().to_owned();
                 new_value.flag = new_flag;
+                if new_flag & NamespaceFromFlags::USER.bits() == 0
+                    && v.flag & NamespaceFromFlags::USER.bits() != 0
+                {
+                    // the user's namespace is deleted; what remains is the weak namespace derived from
+                    // its configs / services, named after its id (as it is again after a restart)
+                    new_value.namespace_name = namespace_id.as_str().to_owned();
+                }
                 self.data.insert(namespace_id, Arc::new(new_value));
             } else {
                 //删除
